@@ -118,7 +118,7 @@ impl Property for C13 {
     }
 
     fn cases(tier: Tier) -> u64 {
-        tier.pick(60_000, 4_000_000)
+        tier.pick(240_000, 4_000_000)
     }
 
     fn exhaustive_spaces(_tier: Tier) -> Vec<String> {
